@@ -134,11 +134,9 @@ Section Proofs.
   Notation atom_match := (atom_match brepr re_search c cs it).
   Notation atom_raises := (atom_raises c it).
   Notation str_match := (str_match re_search c cs it).
-  Notation str_raises := (str_raises c it).
   Notation num_match := (num_match brepr re_search c it).
   Notation num_raises := (num_raises c it).
   Notation text_match := (text_match brepr re_search re_text c it).
-  Notation text_raises := (text_raises brepr re_text c it).
   Notation path_match := (path_match brepr re_search re_text c cs it).
   Notation attrs_of := (attrs_of str_attrs bytes_attrs it).
   Notation attr_text := (attr_text brepr cs).
@@ -150,7 +148,7 @@ Section Proofs.
   Notation matches_spec_doc := (matches_spec_doc brepr re_search excl_re c cs it).
   Notation paths_spec := (paths_spec brepr re_search excl_re re_text c cs it).
   Notation paths_spec_doc := (paths_spec_doc brepr re_search excl_re re_text c cs it).
-  Notation raises_spec := (raises_spec brepr excl_re re_text c cs it).
+  Notation raises_spec := (raises_spec brepr excl_re c cs it).
   Notation k16_guard := (k16_guard c).
   Notation k16b_guard := (k16b_guard brepr excl_re c).
 
@@ -163,10 +161,7 @@ Section Proofs.
                       local_ev p w (EvAttr p n)
   | LPath : forall kvs k ch, w = VDict kvs -> In (k, ch) kvs ->
                              path_match (p ++ [SKey k]) = true ->
-                             local_ev p w (EvPath (p ++ [SKey k]) ch)
-  | LPathRaise : forall kvs k ch, w = VDict kvs -> In (k, ch) kvs ->
-                             text_raises (fold_s (render (p ++ [SKey k]))) = true ->
-                             local_ev p w EvRaise.
+                             local_ev p w (EvPath (p ++ [SKey k]) ch).
 
   (* ---------- the leaf comparers ---------- *)
 
@@ -177,10 +172,9 @@ Section Proofs.
                  end.
 
   Lemma path_test_iff : forall txt hit ev,
-    In ev (path_test txt hit) <->
-    (text_match txt = true /\ In ev hit) \/ (text_raises txt = true /\ ev = EvRaise).
+    In ev (path_test txt hit) <-> text_match txt = true /\ In ev hit.
   Proof.
-    intros txt hit ev. unfold SearchModel.path_test, SearchSpec.text_match, SearchSpec.text_raises.
+    intros txt hit ev. unfold SearchModel.path_test, SearchSpec.text_match.
     destruct (match_string c && pystr_eqb _ txt || negb (match_string c) && contains_sub _ txt) eqn:E;
       cbn [negb orb andb]; [crush|].
     destruct it as [a|[|]|w]; try destruct (re_search txt); crush.
@@ -188,10 +182,9 @@ Section Proofs.
 
   Lemma search_str_iff : forall isb s p ev,
     In ev (search_str isb s p) <->
-    (str_match isb s = true /\ ev = EvValue p (VAtom (if isb then ABytes s else AStr s)))
-    \/ (str_raises isb = true /\ ev = EvRaise).
+    str_match isb s = true /\ ev = EvValue p (VAtom (if isb then ABytes s else AStr s)).
   Proof.
-    intros isb s p ev. unfold SearchModel.search_str, SearchSpec.str_match, SearchSpec.str_raises.
+    intros isb s p ev. unfold SearchModel.search_str, SearchSpec.str_match.
     destruct it as [[| | | |i|i]|b|w]; try (crush; fail).
     - destruct (match_string c), isb; cbn;
         try destruct (pystr_eqb i _); try destruct (contains_sub i _); crush.
@@ -216,14 +209,12 @@ Section Proofs.
 
   Lemma attr_events_iff : forall names p ev,
     In ev (attr_events names p) <->
-    exists n, In n names /\ ((text_match (attr_text p n) = true /\ ev = EvAttr p n)
-                             \/ (text_raises (attr_text p n) = true /\ ev = EvRaise)).
+    exists n, In n names /\ text_match (attr_text p n) = true /\ ev = EvAttr p n.
   Proof.
     intros names p ev. unfold SearchModel.attr_events. rewrite in_flat_map. split.
     - intros [n [Hn H]]. apply path_test_iff in H. exists n. split; auto.
-      destruct H as [[H1 [H2|[]]]|[H1 H2]]; auto.
-    - intros [n [Hn H]]. exists n. split; auto. apply path_test_iff.
-      destruct H as [[H1 H2]|[H1 H2]]; [left|right]; split; auto. left; auto.
+      destruct H as [H1 [H2|[]]]; auto.
+    - intros [n [Hn [H1 H2]]]. exists n. split; auto. apply path_test_iff. split; auto. left; auto.
   Qed.
 
   Lemma local_ev_atom : forall p a ev,
@@ -244,12 +235,6 @@ Section Proofs.
   Lemma py_eq_none : forall b, py_eq b ANone = true <-> b = ANone.
   Proof. intro b. destruct b; cbn; intuition discriminate. Qed.
 
-  Lemma text_raises_noregex : forall txt, (forall b, it <> ERe b) -> text_raises txt = false.
-  Proof.
-    intros txt H. unfold SearchSpec.text_raises. destruct it as [a|b|w]; try apply andb_false_r.
-    exfalso. apply (H b). reflexivity.
-  Qed.
-
   Lemma attrs_of_notstr : forall a, is_strlike a = false -> attrs_of (VAtom a) = [].
   Proof. intros a H. unfold SearchSpec.attrs_of. destruct obj_searched; auto. destruct a; try discriminate; auto. Qed.
 
@@ -261,21 +246,15 @@ Section Proofs.
     (In ev (search_obj_atom a p) <-> local_ev p (VAtom a) ev).
   Proof.
     intros a p ev Ha Hos. rewrite local_ev_atom. unfold SearchModel.search_obj_atom.
-    assert (Hnr : forall b, it <> ERe b) by (intros b E; rewrite E in Hos; discriminate).
     assert (Heq : eq_item it a = false).
     { unfold eq_item. destruct it as [[| | | | |]|b|w]; try discriminate; auto. destruct a; try discriminate; reflexivity. }
     assert (Hm : atom_match a = false).
     { destruct a; try discriminate; cbn; unfold SearchSpec.str_match; destruct it as [[| | | | |]|b|w]; try discriminate; auto. }
-    assert (Hr : atom_raises a = false).
-    { destruct a; try discriminate; cbn; unfold SearchSpec.str_raises; destruct it as [[| | | | |]|b|w]; try discriminate; auto. }
+    assert (Hr : atom_raises a = false) by (destruct a; try discriminate; reflexivity).
     rewrite Heq, Hm, Hr. cbn [app].
     assert (Hev : In ev (match a with AStr _ => attr_events str_attrs p | ABytes _ => attr_events bytes_attrs p | _ => [] end)
                   <-> exists n, In n (attrs_of (VAtom a)) /\ text_match (attr_text p n) = true /\ ev = EvAttr p n).
-    { unfold SearchSpec.attrs_of. rewrite Hos. destruct a; try discriminate; rewrite attr_events_iff; split.
-      - intros [n [Hn [[H1 H2]|[H1 H2]]]]; [eauto|]. rewrite text_raises_noregex in H1 by exact Hnr. discriminate.
-      - intros [n [Hn [H1 H2]]]. eauto.
-      - intros [n [Hn [[H1 H2]|[H1 H2]]]]; [eauto|]. rewrite text_raises_noregex in H1 by exact Hnr. discriminate.
-      - intros [n [Hn [H1 H2]]]. eauto. }
+    { unfold SearchSpec.attrs_of. rewrite Hos. destruct a; try discriminate; rewrite attr_events_iff; tauto. }
     rewrite Hev. crush.
   Qed.
 
@@ -294,7 +273,7 @@ Section Proofs.
           assert (Hos : obj_searched = false) by (destruct it as [[| | | | |]|b|w]; try discriminate; auto).
           rewrite (attrs_of_unsearched _ Hos).
           destruct a as [| | | |s|s]; try discriminate; cbn [SearchSpec.atom_match SearchSpec.atom_raises];
-            unfold SearchSpec.str_match, SearchSpec.str_raises;
+            unfold SearchSpec.str_match;
             destruct it as [[| | | | |]|b|w]; try discriminate; crush; try noattr.
         * assert (Hn : is_number a = false) by (destruct a; try discriminate; auto). rewrite Hn.
           apply search_obj_str_iff; auto.
@@ -604,9 +583,7 @@ Section Proofs.
         split; auto. destruct H as [H|H].
         * unfold SearchModel.path_event in H. apply path_test_iff in H.
           exists [], (VDict kvs). split; [reflexivity|]. left. rewrite vis_nil, E1, app_nil_r.
-          split; auto. destruct H as [[H1 [H2|[]]]|[H1 H2]]; subst ev.
-          -- eapply LPath; eauto.
-          -- eapply LPathRaise; eauto.
+          split; auto. destruct H as [H1 [H2|[]]]; subst ev. eapply LPath; eauto.
         * apply (IH (k, ch) Hin (Hwfc _ Hin)) in H. destruct H as [_ [rest [w [Hg HH]]]].
           cbn [snd] in Hg, HH.
           exists (SKey k :: rest), w. cbn [get_at SearchSpec.vis child].
@@ -618,14 +595,12 @@ Section Proofs.
           destruct HH as [[Hv Hl]|[Hv1 [Hv2 _]]]; [|congruence].
           apply negb_true_iff in Hv.
           rewrite Hv, Hi. cbn [orb]. rewrite app_nil_r in Hl. apply iter_dict_in.
-          inversion Hl as [Hm|Hr|n Hn Ht|kvs' k ch Hw Hink Hpm|kvs' k ch Hw Hink Htr].
+          inversion Hl as [Hm|Hr|n Hn Ht|kvs' k ch Hw Hink Hpm].
           -- cbn in Hm. discriminate.
           -- cbn in Hr. discriminate.
           -- apply attrs_of_nonatom in Hn. destruct Hn; discriminate.
           -- inversion Hw; subst kvs'. exists (k, ch). split; auto. left. cbn [fst snd].
-             unfold SearchModel.path_event. apply path_test_iff. left. split; [exact Hpm|left; auto].
-          -- inversion Hw; subst kvs'. exists (k, ch). split; auto. left. cbn [fst snd].
-             unfold SearchModel.path_event. apply path_test_iff. right. split; auto.
+             unfold SearchModel.path_event. apply path_test_iff. split; [exact Hpm|left; auto].
         * cbn [get_at SearchSpec.vis] in Hg, HH. destruct s as [k|i]; [|discriminate].
           cbn [child] in Hg, HH.
           destruct (find (fun kv => atom_eqb (fst kv) k) kvs) as [kv|] eqn:Hf; [|discriminate].
@@ -867,15 +842,11 @@ Section Proofs.
     - intros [H1 [H2 H3]]. subst. apply LAttr; auto.
   Qed.
 
-  Lemma local_ev_raise : forall p w,
-    local_ev p w EvRaise <->
-    leaf_raises w = true
-    \/ exists kvs k ch, w = VDict kvs /\ In (k, ch) kvs
-                        /\ text_raises (fold_s (render (p ++ [SKey k]))) = true.
+  Lemma local_ev_raise : forall p w, local_ev p w EvRaise <-> leaf_raises w = true.
   Proof.
     intros p w. split.
-    - intro H. inversion H; subst; auto. right. eexists. eexists. eexists. repeat split; eauto.
-    - intros [H|[kvs [k [ch [H1 [H2 H3]]]]]]; [apply LRaise; auto|eapply LPathRaise; eauto].
+    - intro H. inversion H; subst; auto.
+    - intro H. apply LRaise; auto.
   Qed.
 
   Lemma vis_true_false : forall rest pre obj, vis true pre obj rest = true -> vis false pre obj rest = true.
@@ -966,18 +937,13 @@ Section Proofs.
   Theorem raise_iff : forall obj, wf obj = true ->
     In EvRaise (search obj []) <->
     item_excl = false /\
-    ((exists q w, get_at obj q = Some w /\ vis true [] obj q = true /\ leaf_raises w = true)
-     \/ (exists par kvs k ch, get_at obj par = Some (VDict kvs) /\ In (k, ch) kvs /\ vis true [] obj par = true
-                              /\ text_raises (fold_s (render (par ++ [SKey k]))) = true)).
+    exists q w, get_at obj q = Some w /\ vis true [] obj q = true /\ leaf_raises w = true.
   Proof.
     intros obj Hwf. rewrite search_iff by exact Hwf. unfold spec_ev. cbn [app]. split.
     - intros [Hi [rest [w [Hg [[Hv Hl]|[_ [_ Hev]]]]]]]; [|discriminate]. apply local_ev_raise in Hl. split; auto.
-      destruct Hl as [H|[kvs [k [ch [H1 [H2 H3]]]]]].
-      + left. exists rest, w. auto.
-      + right. subst w. exists rest, kvs, k, ch. auto.
-    - intros [Hi [[q [w [Hg [Hv H]]]]|[par [kvs [k [ch [Hg [Hin [Hv H]]]]]]]]]; split; auto.
-      + exists q, w. split; auto. left. split; auto. apply local_ev_raise. auto.
-      + exists par, (VDict kvs). split; auto. left. split; auto. apply local_ev_raise. right. exists kvs, k, ch. auto.
+      exists rest, w. auto.
+    - intros [Hi [q [w [Hg [Hv H]]]]]. split; auto.
+      exists q, w. split; auto. left. split; auto. apply local_ev_raise. auto.
   Qed.
 
   (* ---------- against the list specifications ---------- *)
@@ -1270,26 +1236,10 @@ Section Proofs.
   Proof.
     intros obj Hwf. rewrite raise_iff by exact Hwf. unfold SearchSpec.raises_spec.
     rewrite andb_true_iff, negb_true_iff, existsb_exists. split.
-    - intros [Hi [[q [w [Hg [Hv H]]]]|[par [kvs [k [ch [Hg [Hin [Hv H]]]]]]]]]; split; auto.
-      + exists (q, w). split; [apply in_locations_root; auto|]. cbn [fst snd]. rewrite Hv, H. reflexivity.
-      + exists ((par ++ [SKey k])%list, ch). split.
-        * apply in_locations_root; auto. rewrite get_at_app, Hg. cbn [get_at].
-          assert (Hc : child (VDict kvs) (SKey k) = Some ch).
-          { apply child_key_iff; [eapply get_at_wf; eauto|]. eauto. }
-          rewrite Hc. reflexivity.
-        * cbn [fst snd].
-          assert (Hep : entry_parent (par ++ [SKey k]) = Some par) by (apply entry_parent_iff; eauto).
-          rewrite Hep, Hv, H. apply orb_true_r.
+    - intros [Hi [q [w [Hg [Hv H]]]]]. split; auto.
+      exists (q, w). split; [apply in_locations_root; auto|]. cbn [fst snd]. rewrite Hv, H. reflexivity.
     - intros [Hi [[q w] [Hl H]]]. split; auto. cbn [fst snd] in H.
-      apply in_locations_root in Hl; auto. apply orb_true_iff in H. destruct H as [H|H].
-      + apply andb_true_iff in H. destruct H as [Hv H]. left. exists q, w. auto.
-      + destruct (entry_parent q) as [par|] eqn:Hep; [|discriminate].
-        apply andb_true_iff in H. destruct H as [Hv H].
-        apply entry_parent_iff in Hep. destruct Hep as [k Hq]. subst q.
-        rewrite get_at_app in Hl. destruct (get_at obj par) as [w0|] eqn:Hgp; [|discriminate].
-        cbn [get_at] in Hl. destruct (child w0 (SKey k)) as [ch|] eqn:Hc; [|discriminate].
-        inversion Hl; subst ch. apply child_key_iff in Hc; [|eapply get_at_wf; eauto].
-        destruct Hc as [kvs [Hw Hin]]. subst w0. right. exists par, kvs, k, w. auto.
+      apply in_locations_root in Hl; auto. apply andb_true_iff in H. destruct H as [Hv H]. exists q, w. auto.
   Qed.
 
   (* ---------- finding K16f confined ---------- *)
@@ -1428,13 +1378,23 @@ Proof.
   split; [reflexivity|]. split; [vm_compute; reflexivity|]. right. left. reflexivity.
 Qed.
 
-(* K16d: DeepSearch([b'abc'], 'a') raises TypeError *)
-Definition k16d_obj := VList [VAtom (ABytes (s2p "abc"))].
+(* K16d (fixed in /repo by 9553299, 49764d9): DeepSearch([b'abc'], 'a') no longer raises *)
+Definition k16d_obj := VList [VAtom (ABytes (s2p "abc")); VAtom (AStr (s2p "abc"))].
 Definition k16d_item := VAtom (AStr (s2p "a")).
+Example str_in_bytes_not_found :
+  deep_search id_repr no_re no_re [] [] [] k16f_cfg k16d_item k16d_obj
+  = ROk [EvValue [SIdx 1] (VAtom (AStr (s2p "abc")))].
+Proof. vm_compute. reflexivity. Qed.
+
+(* K16i, the TypeError that is left: DeepSearch([1], b'1', use_regexp=True, strict_checking=False) *)
+Definition k16i_cfg := mkConfig false false true false [] [].
+Definition k16i_obj := VList [VAtom (AInt 1)].
+Definition k16i_item := VAtom (ABytes (s2p "1")).
 Theorem no_raise_refuted :
-  wf k16d_obj = true /\
-  deep_search id_repr no_re no_re [] [] [] k16f_cfg k16d_item k16d_obj = RRaise.
-Proof. split; [reflexivity|vm_compute; reflexivity]. Qed.
+  wf k16i_obj = true /\
+  prepare id_repr k16i_cfg k16i_item <> PRaise /\
+  deep_search id_repr no_re no_re [] [] [] k16i_cfg k16i_item k16i_obj = RRaise.
+Proof. split; [reflexivity|]. split; [discriminate|vm_compute; reflexivity]. Qed.
 
 (* K16h: a container item is found only as an ITEM of a list / tuple / set:
    DeepSearch({'a': [1, 2]}, [1, 2]) == {}  although root['a'] == [1, 2];
@@ -1479,63 +1439,39 @@ Example guards_satisfiable :
   deep_search id_repr no_re no_re [] [] [] guard_cfg guard_item_v guard_obj = ROk guard_evs.
 Proof. repeat split; vm_compute; reflexivity. Qed.
 
-(* ---------- no TypeError without bytes (finding K16d confined) ---------- *)
-
-Lemma child_bytes_free : forall obj s ch, bytes_free obj = true -> child obj s = Some ch -> bytes_free ch = true.
-Proof.
-  intros obj s ch H Hc. destruct obj as [a|xs|xs|kvs|xs|xs], s as [k|i]; cbn [child] in Hc; try discriminate.
-  - cbn in H. rewrite forallb_forall in H. eauto using nth_error_In.
-  - cbn in H. rewrite forallb_forall in H. eauto using nth_error_In.
-  - destruct (find _ kvs) as [kv|] eqn:Hf; [|discriminate]. apply find_key_some in Hf. destruct Hf as [Hin _].
-    cbn in Hc. inversion Hc; subst. cbn in H. rewrite forallb_forall in H. apply (H kv Hin).
-  - destruct (nth_error xs i) as [a|] eqn:Hn; [|discriminate]. inversion Hc; subst.
-    cbn in H. rewrite forallb_forall in H. cbn. eauto using nth_error_In.
-  - destruct (nth_error xs i) as [a|] eqn:Hn; [|discriminate]. inversion Hc; subst.
-    cbn in H. rewrite forallb_forall in H. cbn. eauto using nth_error_In.
-Qed.
-
-Lemma get_at_bytes_free : forall q obj w, bytes_free obj = true -> get_at obj q = Some w -> bytes_free w = true.
-Proof.
-  induction q as [|s r IH]; intros obj w H Hg; cbn [get_at] in Hg.
-  - inversion Hg; subst; auto.
-  - destruct (child obj s) as [ch|] eqn:Hc; [|discriminate]. apply (IH ch w); [eapply child_bytes_free; eauto|exact Hg].
-Qed.
+(* ---------- the only TypeError left (finding K16i confined) ---------- *)
 
 Definition item_not_bytes (item : value) : bool :=
   match item with VAtom a => atom_not_bytes a | _ => true end.
 
-Lemma prepare_not_bytes : forall brepr c item cs it, item_not_bytes item = true ->
-  prepare brepr c item = PItem cs it ->
-  it <> ERe true /\ forall s, it <> EAtom (ABytes s).
+Lemma prepare_re_bytes : forall brepr c item cs,
+  prepare brepr c item = PItem cs (ERe true) -> use_regexp c = true /\ item_not_bytes item = false.
 Proof.
-  intros brepr c item cs it Hb H. destruct item as [a| | | | |]; cbn [prepare] in H;
-    try (destruct (use_regexp c); [discriminate|]; inversion H; subst; split; intros; discriminate).
-  unfold prepare_atom in H. cbn in Hb.
-  destruct a; try discriminate Hb; cbn in H;
-    repeat (match type of H with context [if ?b then _ else _] => destruct b end; cbn in H);
-    try discriminate; inversion H; subst; split; intros; discriminate.
+  intros brepr c item cs H. destruct item as [a| | | | |]; cbn [prepare] in H;
+    try (destruct (use_regexp c); discriminate).
+  unfold prepare_atom in H. destruct (use_regexp c) eqn:Hre.
+  - split; auto. destruct a; cbn in H;
+      repeat (match type of H with context [if ?b then _ else _] => destruct b end; cbn in H);
+      try discriminate; reflexivity.
+  - repeat (match type of H with context [if ?b then _ else _] => destruct b end); discriminate.
 Qed.
 
+(* beyond the documented TypeError of __init__ (use_regexp with a non-string item) the
+   constructor raises only for a bytes regular expression under strict_checking=False *)
 Theorem no_raise_partial : forall brepr re_search excl_re re_text sa ba c item obj,
-  wf obj = true -> bytes_free obj = true -> item_not_bytes item = true ->
+  wf obj = true ->
+  item_not_bytes item || strict c || negb (use_regexp c) = true ->
   deep_search brepr re_search excl_re re_text sa ba c item obj = RRaise ->
   prepare brepr c item = PRaise.
 Proof.
-  intros brepr re_search excl_re re_text sa ba c item obj Hwf Hbf Hib H.
+  intros brepr re_search excl_re re_text sa ba c item obj Hwf Hguard H.
   apply deep_search_raise in H. destruct H as [H|[cs [it [Hp H]]]]; auto. exfalso.
-  destruct (prepare_not_bytes _ _ _ _ _ Hib Hp) as [Hre Hby].
-  apply raise_iff in H; auto. destruct H as [_ [[q [w [Hg [_ Hr]]]]|[par [kvs [k [ch [_ [_ [_ Hr]]]]]]]]].
-  - pose proof (get_at_bytes_free _ _ _ Hbf Hg) as Hw.
-    destruct w as [a| | | | |]; try discriminate. cbn in Hr, Hw.
-    destruct a as [| | | |s|s]; try discriminate; cbn in Hr.
-    + unfold num_raises in Hr. destruct it as [|[|]|]; try discriminate. apply Hre. reflexivity.
-    + unfold num_raises in Hr. destruct it as [|[|]|]; try discriminate. apply Hre. reflexivity.
-    + unfold num_raises in Hr. destruct it as [|[|]|]; try discriminate. apply Hre. reflexivity.
-    + unfold str_raises in Hr. destruct it as [[| | | |i|i]|[|]|]; try discriminate.
-      * apply (Hby i). reflexivity.
-      * apply Hre. reflexivity.
-  - unfold text_raises in Hr. apply andb_true_iff in Hr. destruct Hr as [_ Hr].
-    destruct it as [|[|]|]; try discriminate. apply Hre. reflexivity.
+  apply raise_iff in H; auto. destruct H as [_ [q [w [_ [_ Hr]]]]].
+  destruct w as [a| | | | |]; try discriminate. cbn in Hr.
+  assert (Hn : num_raises c it = true) by (destruct a; try discriminate; exact Hr).
+  unfold num_raises in Hn. destruct it as [|[|]|]; try discriminate.
+  destruct (prepare_re_bytes _ _ _ _ Hp) as [H1 H2]. apply negb_true_iff in Hn.
+  rewrite H1, H2, Hn in Hguard. discriminate.
 Qed.
 
 (* ---------- the result dictionaries (keyed by path text) ---------- *)
@@ -1689,7 +1625,7 @@ Lemma final_raise_exact : forall brepr re_search excl_re re_text sa ba c item ob
   (deep_search brepr re_search excl_re re_text sa ba c item obj = RRaise <->
    prepare brepr c item = PRaise
    \/ exists cs it, prepare brepr c item = PItem cs it
-                    /\ raises_spec brepr excl_re re_text c cs it obj = true).
+                    /\ raises_spec brepr excl_re c cs it obj = true).
 Proof.
   intros brepr re_search excl_re re_text sa ba c item obj Hwf. rewrite deep_search_raise. split.
   - intros [H|[cs [it [H1 H2]]]]; auto. right. exists cs, it. split; auto.
